@@ -36,6 +36,7 @@ pub struct Merged {
     pub extra_sigs: Vec<(String, String)>,
     pub crashes: Vec<(u64, String)>,
     pub fp_by_idx: BTreeMap<u64, u64>,
+    pub stopped_early: bool,
 }
 
 enum Msg {
@@ -94,14 +95,25 @@ pub fn collect(a: &SupArgs, total: u64) -> Result<Merged, String> {
     let mut m = Merged::default();
     let mut current: Vec<Option<u64>> = vec![None; w];
     let mut done: Vec<bool> = vec![false; w];
+    let mut recycle: Vec<Option<u64>> = vec![None; w];
     let mut live = w;
     let mut restarts = 0;
+    let mut violating = 0u64;
+    let mut begun = 0u64;
+    let mut stopping = false;
     while live > 0 {
+        if violating >= 400 && !stopping {
+            // the tree under test fails wholesale: stop the sample early, what was found is reported
+            stopping = true;
+            m.stopped_early = true;
+            let _ = Command::new("pkill").arg("-P").arg(std::process::id().to_string()).status();
+        }
         let msg = rx.recv().map_err(|e| e.to_string())?;
         match msg {
             Msg::Line(slot, l) => {
                 if let Some(rest) = l.strip_prefix("B ") {
                     current[slot] = rest.trim().parse().ok();
+                    begun += 1;
                 } else if let Some(rest) = l.strip_prefix("E ") {
                     let mut it = rest.split_ascii_whitespace();
                     if let (Some(i), Some(f)) = (it.next(), it.next()) {
@@ -145,12 +157,14 @@ pub fn collect(a: &SupArgs, total: u64) -> Result<Merged, String> {
                         }
                     }
                 } else if let Some(rest) = l.strip_prefix("VS ") {
+                    violating += 1;
                     if let Ok(J::Arr(v)) = J::parse(rest) {
                         if v.len() == 2 {
                             m.extra_sigs.push((v[0].str().unwrap_or("").to_string(), v[1].str().unwrap_or("").to_string()));
                         }
                     }
                 } else if let Some(rest) = l.strip_prefix("V ") {
+                    violating += 1;
                     match J::parse(rest) {
                         Ok(j) => {
                             let idx = j.get("idx").and_then(|x| x.u64()).unwrap_or(0);
@@ -178,13 +192,19 @@ pub fn collect(a: &SupArgs, total: u64) -> Result<Merged, String> {
                 } else if l.starts_with("WALLHANG ") {
                     // handled at exit
                     m.crashes.push((current[slot].unwrap_or(0), l.clone()));
+                } else if let Some(rest) = l.strip_prefix("RECYCLE ") {
+                    recycle[slot] = rest.trim().parse().ok();
                 } else if l == "DONE" {
                     done[slot] = true;
                 }
             }
             Msg::Exit(slot, code) => {
-                if done[slot] && code == Some(0) {
+                if stopping {
                     live -= 1;
+                } else if done[slot] && code == Some(0) {
+                    live -= 1;
+                } else if let (Some(crate::runner::EXIT_RECYCLE), Some(next)) = (code, recycle[slot].take()) {
+                    spawn(slot, next, tx.clone())?;
                 } else {
                     // the worker died inside case current[slot]: record, restart after it
                     let idx = current[slot].unwrap_or(slot as u64);
@@ -197,8 +217,10 @@ pub fn collect(a: &SupArgs, total: u64) -> Result<Merged, String> {
                         m.crashes.push((idx, why));
                     }
                     restarts += 1;
-                    if restarts > 200 {
-                        return Err("too many worker restarts".into());
+                    if restarts > 60 {
+                        // the tree under test kills workers wholesale: report what was found so far
+                        eprintln!("graphsim: more than 60 worker deaths, stopping the sample early");
+                        return Ok(m);
                     }
                     let next = idx + w as u64;
                     if next < total {
@@ -210,6 +232,9 @@ pub fn collect(a: &SupArgs, total: u64) -> Result<Merged, String> {
                 }
             }
         }
+    }
+    if m.stopped_early && m.cases < begun {
+        m.cases = begun; // workers were stopped before their last statistics flush
     }
     Ok(m)
 }
@@ -281,6 +306,17 @@ pub fn supervise(a: SupArgs) -> Outcome {
     let mut reported = 0;
     let mut replay_paths: Vec<String> = vec![];
     let _ = std::fs::create_dir_all(format!("{}/replays", a.verif_dir));
+    // unknown groups: write the replay files, minimise them in parallel child processes (a candidate may hang or
+    // crash), confirm each minimised file in a fresh process, then report
+    struct Pending {
+        oracle: String,
+        sig: String,
+        path: String,
+        members: usize,
+        detail: String,
+        child: Option<std::process::Child>,
+    }
+    let mut pending: Vec<Pending> = vec![];
     for ((oracle, sig), members) in &groups {
         if let Some(k) = known.matches(prop.id(), oracle, sig) {
             *known_hits.entry(k).or_insert(0) += members.len() as u64;
@@ -295,26 +331,32 @@ pub fn supervise(a: SupArgs) -> Outcome {
         let (idx, case, vs) = &m.violations[best];
         let v = vs.iter().find(|v| &v.oracle == oracle && &v.sig == sig).unwrap();
         let path = format!("{}/replays/{}-{}-{}.json", a.verif_dir, prop.id(), oracle.replace('.', "_"), idx);
+        let path = if pending.iter().any(|p| p.path == path) { format!("{}.{}.json", path.trim_end_matches(".json"), reported) } else { path };
         let rep = crate::replay::Replay { case: case.clone(), oracle: oracle.clone(), sig: sig.clone(), detail: v.detail.clone(), minimised: false, tier: a.tier };
         let _ = std::fs::write(&path, rep.to_json().pretty());
-        // minimise in a child process (a candidate may hang or crash), then confirm in a fresh process
-        let min_path = format!("{}.min", path);
-        let st = Command::new(std::env::current_exe().unwrap()).arg("minimise").arg(&path).arg(&min_path).stdout(Stdio::null()).status();
-        let mut final_path = path.clone();
-        if matches!(st, Ok(s) if s.success()) && std::path::Path::new(&min_path).exists() {
+        let child = Command::new(std::env::current_exe().unwrap()).arg("minimise").arg(&path).arg(format!("{}.min", path)).stdout(Stdio::null()).stderr(Stdio::null()).spawn().ok();
+        pending.push(Pending { oracle: oracle.clone(), sig: sig.clone(), path, members: members.len(), detail: v.detail.clone(), child });
+    }
+    for p in pending.iter_mut() {
+        let min_path = format!("{}.min", p.path);
+        let ok = match p.child.take() {
+            Some(mut c) => matches!(c.wait(), Ok(s) if s.success()),
+            None => false,
+        };
+        if ok && std::path::Path::new(&min_path).exists() {
             let chk = Command::new(std::env::current_exe().unwrap()).arg("replay").arg(&min_path).stdout(Stdio::null()).status();
             if matches!(chk, Ok(s) if s.code() == Some(1)) {
-                let _ = std::fs::rename(&min_path, &path);
+                let _ = std::fs::rename(&min_path, &p.path);
             } else {
                 let _ = std::fs::remove_file(&min_path);
             }
         } else {
             let _ = std::fs::remove_file(&min_path);
         }
-        final_path = std::fs::canonicalize(&final_path).map(|p| p.to_string_lossy().to_string()).unwrap_or(final_path);
+        let final_path = std::fs::canonicalize(&p.path).map(|x| x.to_string_lossy().to_string()).unwrap_or(p.path.clone());
         println!("VIOLATION property={} replay={}", prop.id(), final_path);
-        println!("  oracle={} sig={:?} cases_in_group={}", oracle, sig, members.len());
-        println!("  {}", v.detail.chars().take(600).collect::<String>());
+        println!("  oracle={} sig={:?} cases_in_group={}", p.oracle, p.sig, p.members);
+        println!("  {}", p.detail.chars().take(600).collect::<String>());
         replay_paths.push(final_path);
         exit = 1;
     }
@@ -341,7 +383,10 @@ pub fn supervise(a: SupArgs) -> Outcome {
         known_hits.len(),
         wall
     );
-    if m.cases + (m.violations.iter().filter(|(_, _, v)| v.iter().any(|x| x.oracle.ends_with(".crash"))).count() as u64) < total {
+    if m.stopped_early {
+        println!("graphsim: the sample was stopped early after 400 violating cases");
+    }
+    if exit == 0 && m.cases + (m.violations.iter().filter(|(_, _, v)| v.iter().any(|x| x.oracle.ends_with(".crash"))).count() as u64) < total {
         eprintln!("HARNESS ERROR: only {} of {} cases were executed", m.cases, total);
         return Outcome { exit: 2 };
     }
